@@ -1,5 +1,5 @@
 """C11 -- repetitions enumerate exactly their offsets (count and extreme offsets; see DESIGN.md)."""
-LEVEL = 'proof'
+LEVEL = 'model_checking'
 
 
 def R(name, fn, entry, **kw):
@@ -21,9 +21,17 @@ GROUPS = [
     # counterexample satisfies the clause and replays clean natively; unexplained, so the group is NOT claimed.
     # full get_extrema incl. the ExplicitX/ExplicitY coordinate loops (loop contracts in contracts/repetition.ct):
     # undecided after 20 min; not claimed.
+    dict(name='ref_apply_repetition', tu='src/reference.cpp', spec_headers=['spec/apply_rep_spec.h'], models=['models/apply_rep_models.h'],
+         harness='harness/c11_apply.c', roots=['gdstk::Reference::apply_repetition'], entry='h_ref_apply_repetition', enforce=None,
+         kind='bounded', bound='a by-pointer reference whose repetition denotes 1..3 offsets (arbitrary finite values, the first one zero); loops unwound with unwinding assertions',
+         unwind=5, timeout=1200, tier='quick', uf_fp=True),
+    dict(name='ref_apply_repetition_empty', tu='src/reference.cpp', spec_headers=['spec/apply_rep_spec.h'], models=['models/alloc_models.h', 'models/apply_rep_models.h'],
+         harness='harness/c11_apply.c', roots=['gdstk::Reference::apply_repetition'], entry='h_ref_apply_repetition', enforce=None,
+         kind='bounded', bound='a reference whose repetition is a lattice with zero columns (denotes no vector): no copies, no memory error',
+         defines={'VF_EMPTY_REPETITION': 1, 'VF_REALLOC_MOVES': 1}, unwind=5, timeout=1200, tier='quick'),
 ]
 TRUSTED_BASE = ['clang 14 AST', 'tools/cxx2c.py lowering', 'cbmc 6.11.0 (dfcc + SAT)', 'side-car contracts']
 ASSUMPTIONS = ['double multiplication/addition in the lattice corner formulas are uninterpreted (same expression of the same inputs); comparisons are IEEE, bit-precise',
                'coordinates are numbers (no NaN)', 'malloc/realloc never fail',
-               'not covered: get_offsets, the Explicit kind of get_extrema, the five apply_repetition functions']
+               'ref_apply_repetition: get_offsets, Repetition::clear/copy_from, properties_copy, copy_string (other translation units) are C models (models/apply_rep_models.h)', 'not covered: get_offsets itself, the explicit kinds of get_extrema, the other four apply_repetition functions, empty repetitions (count 0)']
 EXPLANATION = ''
